@@ -7,7 +7,11 @@
 // -I/-X on the command line, objects pre-seeded locally or reachable through an
 // alternates reference store (git clone --reference), filter-process or the
 // one-shot smudge filter, and working-tree files edited / deleted / replaced /
-// made read-only before `git lfs pull` and `git lfs checkout`.
+// made read-only before `git lfs pull` and `git lfs checkout`. In one scenario
+// out of three the server misbehaves for one or two objects (faults.go): 503s
+// within / beyond / far beyond lfs.transfer.maxretries, connection resets, cut
+// bodies, a batch answer that reports the object missing once. Commands that
+// exit 0 are judged as always; commands that fail under faults are counted.
 //
 // Oracle (no git-lfs code): reference model (ls-tree / cat-file with filters
 // disabled + ptrspec) for the pointers of the checked-out commit, Git's own
@@ -66,6 +70,8 @@ type source struct {
 	cc    *crossChecker
 	oids  []string // every oid the generator created
 	paths []string // every path of every ref
+	// fault scripts of the scenarios that run with a misbehaving server, keyed by the scenario's server repository
+	scripts sync.Map
 }
 
 var tmpSeq int64
@@ -133,6 +139,13 @@ func genSource(run *evid.Run, i int) *source {
 		}
 	}
 	run.Count("source_repos", 1)
+	// from here on the server may misbehave, but only for scenarios that registered a script
+	srv.SetHook(func(rq *fakelfs.Request) *fakelfs.Fault {
+		if fs, ok := src.scripts.Load(rq.Repo); ok {
+			return fs.(*faultScript).answer(rq)
+		}
+		return nil
+	})
 	m := histgen.NewModel(env, g.Dir)
 	refs := histgen.NewModel(env, src.bare).Refs()
 	pathset := map[string]bool{}
@@ -191,6 +204,7 @@ type plan struct {
 	CfgVia     string // home | dash-c | clone-config
 	Store      string // empty | preseed-subset | reference-full | reference-subset
 	Ops        []opPlan
+	Fault      *faultPlan `json:",omitempty"` // transient server faults (nil = the server behaves)
 }
 
 func (src *source) pickRef(r *rand.Rand, not string) refInfo {
@@ -452,7 +466,7 @@ func (p plan) class() string {
 	for _, o := range p.Ops {
 		ops = append(ops, optClass(o))
 	}
-	return fmt.Sprintf("clone-%s-%s/%s/%s/cfg-%s/%s", mode, p.RefKind, p.Driver, p.Store, filterClass(p.CfgInc, p.CfgExc), strings.Join(ops, ","))
+	return fmt.Sprintf("clone-%s-%s/%s/%s/cfg-%s/%s/%s", mode, p.RefKind, p.Driver, p.Store, filterClass(p.CfgInc, p.CfgExc), strings.Join(ops, ","), p.Fault.class())
 }
 
 // ---------- main ----------
@@ -460,7 +474,7 @@ func (p plan) class() string {
 func main() {
 	run := evid.New("C04", "exploration")
 	defer sbx.RemoveBase()
-	run.Rule = "per source repository (histgen: branches, merges, orphan branches, tags, add/modify/delete/rename/duplicate, files moving in and out of LFS tracking, nested .gitattributes, exec bits, empty files, symlinks; pushed through the pre-push hook to a bare repository + fake LFS server) 8 consumer scenario templates: {smudging clone, skip-smudge clone + fetch + lfs checkout, skip clone + edits + pull, configured include/exclude overridden by -I/-X, alternates reference store, pre-seeded local objects, clone --no-checkout + seed + checkout + ref switch, free mix} x random {branch|tag, lfs.url via -c/--config/HOME, filter-process|one-shot smudge, lfs.fetchinclude/exclude via HOME/-c/--config, 11 pattern forms, -I/-X given/empty/absent, fetch refs, lfs checkout path arguments, GIT_LFS_SKIP_SMUDGE on git checkout, 9 working-tree mutation kinds before pull / lfs checkout}. Class = (clone mode, ref kind, filter driver, store, configured filter shape, sequence of operations with their option shapes)."
+	run.Rule = "per source repository (histgen: branches, merges, orphan branches, tags, add/modify/delete/rename/duplicate, files moving in and out of LFS tracking, nested .gitattributes, exec bits, empty files, symlinks; pushed through the pre-push hook to a bare repository + fake LFS server) 8 consumer scenario templates: {smudging clone, skip-smudge clone + fetch + lfs checkout, skip clone + edits + pull, configured include/exclude overridden by -I/-X, alternates reference store, pre-seeded local objects, clone --no-checkout + seed + checkout + ref switch, free mix} x random {branch|tag, lfs.url via -c/--config/HOME, filter-process|one-shot smudge, lfs.fetchinclude/exclude via HOME/-c/--config, 11 pattern forms, -I/-X given/empty/absent, fetch refs, lfs checkout path arguments, GIT_LFS_SKIP_SMUDGE on git checkout, 9 working-tree mutation kinds before pull / lfs checkout} x transient server faults in one scenario out of three: for one or two victim objects that the step reached first (clone, first checkout, git checkout, lfs fetch, lfs pull) is about to download, the storage GET is answered {503 k times with k <= lfs.transfer.maxretries, 503 maxretries+1 times, 503 for ever, connection reset once or twice, body cut short once or twice} or the batch API reports the object missing once; lfs.transfer.maxretries in {1,2,8} delivered via HOME/-c/--config; later steps (incl. lfs checkout) run with what is left of the script and with the objects a failed step left behind. A command that exits 0 is judged exactly as without faults; a command that exits non-zero while faults were injected is counted, not judged (except never-clobber / fetch-leaves-worktree-alone, which hold for failures too). Class = (clone mode, ref kind, filter driver, store, configured filter shape, sequence of operations with their option shapes, fault kind + maxretries + step at which it was armed)."
 	run.Assumptions = []string{
 		"selection by include/exclude follows gitignore(5) as documented in git-lfs-fetch(1); the driver's matcher is restricted to the generated pattern forms and cross-checked against git check-ignore",
 		"-I / -X each override only their own configuration key (documented: 'override the respective configuration settings')",
@@ -470,6 +484,8 @@ func main() {
 		"git checkout <ref> only rewrites paths whose blob differs between the two commits; untouched paths keep their state",
 		"git 2.39.5: git lfs pull / checkout scan the tree of HEAD (index == HEAD in every scenario)",
 		"the driver runs as root: read-only files are still writable for git-lfs",
+		"faulty scenarios: back-off sleeps of the transfer queue are scaled by 0.02 through the verif-tagged hook (VERIF_RETRY_SCALE) and the verif-tagged event trace (VERIF_TRACE) is read for counters only (queue retries, delayed-smudge fallbacks); neither takes part in a verdict",
+		"faulty scenarios: after a git clone / git checkout / git reset that exits non-zero the scenario ends (index and HEAD may disagree); after a failed lfs fetch / pull it goes on, and every later expectation is computed from the state observed right before the command (working-tree snapshot, hash-valid local objects)",
 	}
 	nrepos := run.N(12, 150)
 	nscen := run.N(8, 16)
